@@ -228,9 +228,15 @@ SeekFails(ev, sg, c) ==
       snap == ev.s
       ctlOK == \A ch \in 1..16 : CtlView(snap.mc[ch]) = CtlView(exp.mc[ch]) \/ CtlView(snap.mc[ch]) = CtlView(expLo.mc[ch])
       silent == (\A ci \in DOMAIN snap.ch : ~snap.ch[ci].k /\ snap.ch[ci].u = <<>>) /\ \A mi \in DOMAIN snap.mc : snap.mc[mi].notes = <<>>
+      \* a refused (negative) target is IGNORED: what sounded before the call still sounds (keyed-on chip channels and
+      \* chip-channel users counted by the harness right before the call)
+      keyedNow == Cardinality({ ci \in DOMAIN snap.ch : snap.ch[ci].k })
+      usersNow == SumSeq([ci \in DOMAIN snap.ch |-> Len(snap.ch[ci].u)])
+      untouched == "prek" \notin DOMAIN ev \/ (ev.prek = keyedNow /\ ev.preu = usersNow)
   IN SeekCoreFails(ev, sg, c, pos.t) \cup
      (IF inside THEN Lbl(tgt <= SeekSlackUs \/ ctlOK, "controller-state") \cup Lbl(silent, "sounding-after-seek")
-      ELSE IF tail \/ beyond THEN Lbl(silent, "sounding-after-seek") ELSE {})
+      ELSE IF tail \/ beyond THEN Lbl(silent, "sounding-after-seek")
+      ELSE Lbl(untouched, "negative-seek-touched-notes"))
 Ungated(c) == c.solo = -1 /\ \A i \in DOMAIN c.enabled : c.enabled[i]
 StripLog(L) == LET K == SelectSeq(L, LAMBDA x : x[1] \in {"e", "h"}) IN
                [i \in DOMAIN K |-> IF K[i][1] = "e" THEN <<"e", K[i][2], K[i][3], K[i][4], K[i][5], K[i][6]>> ELSE <<"h", K[i][2], K[i][3]>>]
